@@ -15,7 +15,9 @@ A *tree spec* is a list of entry dicts in creation order (superset of `vf.fsx.bu
                                2-3, symlinks to file/dir/dangling/absolute-dangling/./.., fifos, setuid bits,
                                empty / binary / >32 kB files); uids/gids in {0, 12345, 12346} (no passwd entry)
     live_root(image, ...)      hypothesis strategy: a pre-existing root relative to `image`: for each image entry
-                               nothing / same-type entry with other content+metadata / another type (file, fifo,
+                               nothing / same-type entry with other content+metadata / a "twin" file equal to the
+                               image file in a drawn subset of {content, size, mtime, mode, uid, gid} (re-merge of
+                               an unchanged or merely touched/chmod'ed/chown'ed file) / another type (file, fifo,
                                directory, symlink to a file, symlink to a directory, dangling relative or
                                absolute symlink) / a file hardlinked to an unrelated "victim" file, stale
                                `<name>#new` siblings (file or symlink to a victim), unrelated files and dirs.
@@ -187,6 +189,36 @@ def _chance(draw, percent):
     return draw(st.integers(0, 99)) < percent
 
 
+def _file_of(image, e):
+    """the image entry that carries data and metadata of e (hardlinks point to it)"""
+    while e["type"] == "hardlink":
+        e = next(x for x in image if x["path"] == e["to"])
+    return e
+
+
+def same_size_other_data(data):
+    """a string of the same length that differs (if there is anything to differ in)"""
+    return "".join("Z" if c != "Z" else "Y" for c in data)
+
+
+def twin(draw, src):
+    """a pre-existing regular file that equals the image file `src` in a drawn subset of
+    {content, size, mtime, mode, uid, gid} (a re-merge of an unchanged, touched, chmod'ed, chown'ed or edited file):
+    bit 0-1: content same / same size but other bytes / other size; bit 2: mtime; 3: mode; 4: uid; 5: gid"""
+    bits = draw(st.integers(0, 95))
+    content, keep = bits % 3, bits // 3
+    e = {"type": "file", "data": src.get("data", ""), "rep": src.get("rep", 1)}
+    if content == 1:
+        e["data"] = same_size_other_data(e["data"])
+    elif content == 2:
+        e["data"], e["rep"] = e["data"] + "+", e["rep"] + 1
+    other = {"mtime": [m for m in MTIMES if m != src["mtime"]], "mode": [m for m in FILE_MODES if m != src["mode"]],
+             "uid": [u for u in UIDS if u != src["uid"]], "gid": [g for g in UIDS if g != src["gid"]]}
+    for i, k in enumerate(("mtime", "mode", "uid", "gid")):
+        e[k] = src[k] if keep >> i & 1 else draw(st.sampled_from(other[k]))
+    return e
+
+
 @st.composite
 def live_root(draw, image, collide=0.45, refusals=True, stale=0.08, dangling_dir=True):
     """root spec colliding with `image`. refusals=False leaves out the collisions for which a merge may legitimately
@@ -236,8 +268,11 @@ def live_root(draw, image, collide=0.45, refusals=True, stale=0.08, dangling_dir
                 spec.append({"path": here, "type": "dir", **_meta(draw, DIR_MODES)})
                 phys[path] = here
             elif e["type"] in ("file", "hardlink"):
-                d, r = draw(st.sampled_from(OLD_DATA))
-                spec.append({"path": here, "type": "file", "data": d, "rep": r, **_meta(draw, FILE_MODES)})
+                if draw(st.booleans()):
+                    spec.append({"path": here, **twin(draw, _file_of(image, e))})
+                else:
+                    d, r = draw(st.sampled_from(OLD_DATA))
+                    spec.append({"path": here, "type": "file", "data": d, "rep": r, **_meta(draw, FILE_MODES)})
             elif e["type"] == "sym":
                 spec.append({"path": here, "type": "sym", "target": draw(st.sampled_from(("old-target", e["target"]))),
                              "uid": draw(st.sampled_from(UIDS)), "gid": draw(st.sampled_from(UIDS))})
